@@ -312,6 +312,10 @@ func (t *Target) rewrite(req *httputil.ProxyRequest) {
 	routingContext := RoutingContext(req.In)
 	if routingContext != nil {
 		req.Out.URL.Path = strings.TrimPrefix(req.Out.URL.Path, routingContext.MatchedPrefix)
+		// Keep the client's percent-encoding of the rest of the path: the
+		// encoded form has to lose the prefix as well, or it no longer matches
+		// Path and is dropped in favour of a re-encoding of the decoded path.
+		req.Out.URL.RawPath = strings.TrimPrefix(req.Out.URL.RawPath, routingContext.MatchedPrefix)
 	}
 
 	// Ensure query params are preserved exactly, including those we could not
